@@ -116,6 +116,18 @@ def main():
                 and len(P.flatten(tr['to'])[0]) > len(P.flatten(tr['from'])[0])]
         split = [i for i in grow if P.nleaves(payloads[i]['to']) > P.nleaves(payloads[i]['from']) or P.depth(payloads[i]['to']) > P.depth(payloads[i]['from'])]
         dumps.append((fn, grow, split, nk, lf, it))
+    deep = []
+    from harness import replayplan as RP
+    for (nk, nv, lf, it, num, depth) in ([(16, 1, 2, 2, 30, 60)] if quick else [(16, 1, 2, 2, 200, 80), (16, 1, 3, 2, 100, 80)]):
+        fn, payloads, summ = RP.sim_dump(ck, nk, nv, lf, it, num, depth, spec='SpecEff')
+        ck.add_tlc(summ, 'simulated deep shapes keys=%d sizes=(%d,%d)' % (nk, lf, it))
+        grow = [i for i, tr in enumerate(payloads) if tr['act']['op'] in ('setitem', 'insert')
+                and len(P.flatten(tr['to'])[0]) > len(P.flatten(tr['from'])[0])]
+        split = [i for i in grow if P.depth(payloads[i]['to']) > P.depth(payloads[i]['from']) or
+                 (P.nleaves(payloads[i]['to']) > P.nleaves(payloads[i]['from']) and P.depth(payloads[i]['from']) >= 3)]
+        ck.rng.shuffle(grow)
+        ck.rng.shuffle(split)
+        deep.append((fn, grow, split, nk, lf, it))
     # 2. fault enumeration on the real C code (hook build), every allocation index of every selected call;
     #    then again on the sanitizer build
     for flavour in ('plain', 'asan'):
@@ -132,6 +144,16 @@ def main():
                     for p in range(parts):
                         plan.append(dict(fam=fam, is_set=is_set, leaf=lf, internal=it, nkeys=nk, dump=fn, indices=sel[p::parts],
                                          partb=True, partb_every=3 if quick else 1, partb_cap=10 if quick else 40))
+        # ... inserts on *stored* trees with every node evicted (deep trees from the simulator: splits of interior nodes whose
+        #     children are interior nodes, all of them ghosts), and multiunion on both sides of the switch to the radix sort
+        for (fn, grow, split, nk, lf, it) in deep:
+            sel = sorted(set(split[:(60 if quick else 600)] + grow[:(30 if quick else 300)]))
+            if flavour == 'asan':
+                sel = sel[::3]
+            for fam in (['II', 'OO'] if quick else ['II', 'OO', 'LF', 'fs', 'QQ']):
+                for is_set in (True, False):
+                    plan.append(dict(fam=fam, is_set=is_set, leaf=lf, internal=it, nkeys=nk, dump=fn, indices=sel[(0 if is_set else 1)::2],
+                                     partb=False, stored=True, bigmulti=is_set))
         results = jobs.run_jobs('harness.workers.oom_worker', plan, flavour=flavour)
         for job, res, err in results:
             ident = dict(fam=job['fam'], is_set=job['is_set'], sizes=[job['leaf'], job['internal']], build=flavour)
